@@ -408,6 +408,13 @@ class Model(CallsMixin, BuiltinsMixin):
         dims = self.broadcast(da, db, node)
         out = ARR(dims, promote(a, b, sym))
         out.lo = self._lo_binop(sym, a, b)
+        out.nonlin = bool(getattr(a, 'nonlin', False) or
+                          getattr(b, 'nonlin', False))
+        if sym in ('**', '//', '%') or (sym == '/' and b.k == 'arr'):
+            out.nonlin = True
+        if sym == '*' and a.k == 'arr' and b.k == 'arr' and \
+                a.src is not None and a.src is b.src:
+            out.nonlin = True
         if a.k == 'arr' and b.k != 'arr':
             out.lay = a.lay
         elif b.k == 'arr' and a.k != 'arr':
@@ -508,6 +515,14 @@ class Model(CallsMixin, BuiltinsMixin):
             lead = self.broadcast(da[:-2], db[:-2], None)
             out = ARR(tuple(lead or ()) + (da[-2], db[-1]), 'f')
         out.taint = a.taint | b.taint
+        if a.nonlin or b.nonlin:
+            self.site('L-lin', node, 'violation',
+                      'an operand of this contraction is a non-linear '
+                      'function of the cores (clipped / absolute value / '
+                      'power): partial sums no longer telescope')
+            out.nonlin = True
+        else:
+            self.site('L-lin', node, 'ok')
         la = a.lg
         lb = b.lg
         if la is not None and lb is not None:
@@ -875,6 +890,7 @@ class Model(CallsMixin, BuiltinsMixin):
             s = self.I.scalar_of(base)
             return s
         r = ARR(tuple(out), base.dt)
+        r.nonlin = base.nonlin
         r.lo = base.lo if base.lo is not None else self.lo_of(base)
         r.taint = base.taint
         r.lg = base.lg
